@@ -270,8 +270,10 @@ def run_par(out, args, timeout=1800):
         restarts += 1
         with open(out) as f:
             start = sum(1 for l in f if l.startswith('{"cfg"') or '"ev":"reset"' in l[:400])
-        if restarts > 200:
-            raise ToolError("engine par: too many stuck runs")
+        if restarts >= 25:
+            # stuck runs are data (C04 verdicts of the scheduler, reported by TracePar): the rest of this batch is given up, not the check
+            log(f"  engine par: {restarts} runs of this batch deadlocked / livelocked; batch cut short")
+            return restarts
 
 
 def par_dev(chk):
